@@ -1,19 +1,23 @@
 (** C07 — Groestl-224/256/384/512 digests conform to the Groestl specification
     (SHA-3 finalist version) for every message.
 
-    STATUS of this file: first delivery.  Proved so far: the S-box facts, the
-    GF(2^8) facts and the known-answer vectors.  The conformance theorems
-    (model = specification for every message) are being added; until they are
-    here nothing below claims them.
-
-    Full statements still to come (kept here so that they cannot be forgotten):
-      C07_groestl256_eq_spec : forall msg, Forall is_byte msg ->
-         m_groestl256 msg = Spec.Groestl.groestl256 msg      (same for 224/384/512) *)
-From Coq Require Import NArith List.
-From CC Require Import Lib.Words Lib.Bytes Spec.AES.
+    Model: Model/Groestl.v + Model/GroestlIntrinsics.v — compressor.rs and lib.rs as
+           written: 16-byte registers, the SSE2/SSSE3/AES-NI intrinsics the code issues
+           with the masks and constants it uses, the transposed row layout, the
+           BlockBuffer/len64_padding_be schedule with the wrapping u64 block counter.
+    Spec:  Spec/Groestl.v (byte matrices, written from the published definition;
+           S-box = inverse in GF(2^8) then affine map, Spec/AES.v; KAT_Groestl.v).
+    Every statement below is closed under the global context. *)
+From Coq Require Import NArith List Arith.
+From CC Require Import Lib.Words Lib.Bytes Spec.AES Model.BlockBuffer
+     Model.GroestlIntrinsics Model.Groestl.
+From CC Require Import Proofs.GroestlLayout Proofs.GroestlMix Proofs.GroestlRound
+     Proofs.GroestlCompress Proofs.GroestlSchedule Proofs.GroestlHash.
 From CC Require Spec.Groestl Spec.KAT_Groestl.
 Import ListNotations.
 Local Open Scope N_scope.
+
+(** * the S-box *)
 
 (** the S-box table (and the tree the executable model uses) is the definition
     "multiplicative inverse in GF(2^8), then the affine map" *)
@@ -27,6 +31,84 @@ Proof. exact sbox_fast_correct. Qed.
 Theorem C07_gf_inv_is_inverse : forall x, 0 < x -> x < 256 -> gf_mul x (gf_inv x) = 1.
 Proof. exact gf_inv_correct. Qed.
 
+(** * MixBytes *)
+
+(** [mul2] (add + signed compare + mask 0x1b on 16 lanes) is multiplication by 02 *)
+Theorem C07_mul2_eq_xtime : forall r, length r = 16%nat -> mul2 r = map xtime r.
+Proof. exact mul2_eq_xtime. Qed.
+
+(** * permutations, compression function, output transformation
+      (for any substitution [S]; instantiated with the AES S-box below) *)
+
+(** 512-bit state: the ten rounds on the interleaved P|Q rows are P and Q *)
+Theorem C07_rounds_p_q_eq_spec : forall S a b, length a = 64%nat -> length b = 64%nat ->
+  rounds_p_q S (rows2 a b) = rows2 (Spec.Groestl.P S Spec.Groestl.p512 a) (Spec.Groestl.Q S Spec.Groestl.p512 b).
+Proof. exact rounds_p_q_eq. Qed.
+
+(** 1024-bit state: the fourteen rounds are P resp. Q (ShiftBytesWide) *)
+Theorem C07_rounds_p_eq_spec : forall S a, length a = 128%nat ->
+  rounds_p S (L1024 a) = L1024 (Spec.Groestl.P S Spec.Groestl.p1024 a).
+Proof. exact rounds_p_eq. Qed.
+Theorem C07_rounds_q_eq_spec : forall S a, length a = 128%nat ->
+  rounds_q S (L1024 a) = L1024 (Spec.Groestl.Q S Spec.Groestl.p1024 a).
+Proof. exact rounds_q_eq. Qed.
+
+(** tf512 / tf1024 are f(h,m) = P(h xor m) xor Q(m) xor h on the transposed chaining value *)
+Theorem C07_tf512_eq_f : forall S h m, length h = 64%nat -> length m = 64%nat ->
+  tf512 S (LA h) m = LA (Spec.Groestl.f S Spec.Groestl.p512 h m).
+Proof. exact tf512_eq. Qed.
+Theorem C07_tf1024_eq_f : forall S h m, length h = 128%nat -> length m = 128%nat ->
+  tf1024 S (L1024 h) m = L1024 (Spec.Groestl.f S Spec.Groestl.p1024 h m).
+Proof. exact tf1024_eq. Qed.
+
+(** of512 / of1024 give the half of P(h) xor h the digests are cut from *)
+Theorem C07_of512_eq_omega : forall S h, length h = 64%nat ->
+  skipn 32 (concat (of512 S (LA h))) = skipn 32 (Spec.Groestl.omega S Spec.Groestl.p512 h).
+Proof. exact of512_eq. Qed.
+Theorem C07_of1024_eq_omega : forall S h, length h = 128%nat ->
+  skipn 64 (concat (of1024 S (L1024 h))) = skipn 64 (Spec.Groestl.omega S Spec.Groestl.p1024 h).
+Proof. exact of1024_eq. Qed.
+
+(** * schedule: update/finalize feed exactly the padded message, for any compressor,
+      from any buffered state with any block count (states entered through hook H2
+      included), as long as the total stays below 2^64 blocks *)
+Theorem C07_schedule_eq_spec : forall c h buffered tail,
+  (8 < c_bytes c)%nat -> holds (c_bytes c) (h_buf h) buffered ->
+  h_count h + N.of_nat (Spec.Groestl.pad_blocks (c_bytes c) (length buffered + length tail)) < 2^64 ->
+  finalize_dirty c (update c h tail)
+  = concat (c_of c (fold_left (c_tf c)
+        (Spec.Groestl.blocks (c_bytes c) (Spec.Groestl.pad_from (c_bytes c) (h_count h) (buffered ++ tail)))
+        (h_cv h))).
+Proof. exact hasher_schedule. Qed.
+
+(** the padded message itself (compressor that records its blocks) *)
+Theorem C07_schedule_recorded : forall bs prior msg, (8 < bs)%nat ->
+  prior + N.of_nat (Spec.Groestl.pad_blocks bs (length msg)) < 2^64 ->
+  finalize_dirty (comp_rec bs) (update (comp_rec bs) (H (bb_new bs) prior []) msg)
+  = Spec.Groestl.pad_from bs prior msg.
+Proof. exact hasher_schedule_recorded. Qed.
+
+(** * the four digests, for every message of fewer than 2^64 blocks (the format limit) *)
+Theorem C07_groestl224_eq_spec : forall msg,
+  N.of_nat (Spec.Groestl.pad_blocks 64 (length msg)) < 2 ^ 64 ->
+  m_groestl224 msg = Spec.Groestl.groestl224 msg.
+Proof. exact groestl224_eq_spec. Qed.
+
+Theorem C07_groestl256_eq_spec : forall msg,
+  N.of_nat (Spec.Groestl.pad_blocks 64 (length msg)) < 2 ^ 64 ->
+  m_groestl256 msg = Spec.Groestl.groestl256 msg.
+Proof. exact groestl256_eq_spec. Qed.
+
+Theorem C07_groestl384_eq_spec : forall msg,
+  N.of_nat (Spec.Groestl.pad_blocks 128 (length msg)) < 2 ^ 64 ->
+  m_groestl384 msg = Spec.Groestl.groestl384 msg.
+Proof. exact groestl384_eq_spec. Qed.
+
+Theorem C07_groestl512_eq_spec : forall msg,
+  N.of_nat (Spec.Groestl.pad_blocks 128 (length msg)) < 2 ^ 64 ->
+  m_groestl512 msg = Spec.Groestl.groestl512 msg.
+Proof. exact groestl512_eq_spec. Qed.
+
 (** the specification reproduces the published vectors *)
 Definition C07_kats :=
   (Spec.KAT_Groestl.kat224_empty, Spec.KAT_Groestl.kat224_len55, Spec.KAT_Groestl.kat224_len56,
@@ -38,7 +120,25 @@ Definition C07_kats :=
    Spec.KAT_Groestl.kat512_empty, Spec.KAT_Groestl.kat512_len119, Spec.KAT_Groestl.kat512_len120,
    Spec.KAT_Groestl.kat512_len255).
 
+(** non-vacuity: a message meeting the hypothesis, and the schedule on a concrete state *)
+Definition C07_examples := (hasher_schedule_example, chain_ne_wrong_matrix).
+
 Print Assumptions C07_sbox_table_is_definition.
 Print Assumptions C07_sbox_fast_is_definition.
 Print Assumptions C07_gf_inv_is_inverse.
+Print Assumptions C07_mul2_eq_xtime.
+Print Assumptions C07_rounds_p_q_eq_spec.
+Print Assumptions C07_rounds_p_eq_spec.
+Print Assumptions C07_rounds_q_eq_spec.
+Print Assumptions C07_tf512_eq_f.
+Print Assumptions C07_tf1024_eq_f.
+Print Assumptions C07_of512_eq_omega.
+Print Assumptions C07_of1024_eq_omega.
+Print Assumptions C07_schedule_eq_spec.
+Print Assumptions C07_schedule_recorded.
+Print Assumptions C07_groestl224_eq_spec.
+Print Assumptions C07_groestl256_eq_spec.
+Print Assumptions C07_groestl384_eq_spec.
+Print Assumptions C07_groestl512_eq_spec.
 Print Assumptions C07_kats.
+Print Assumptions C07_examples.
